@@ -184,7 +184,7 @@ Proof.
   split; [|split; [|split; reflexivity]].
   - rewrite (rule_matches_split s (set_nets r sn nsn dn ndn) p). f_equal.
     unfold net_part. fold v. cbn [set_nets r_ipver r_src_nets r_not_src_nets r_dst_nets r_not_dst_nets].
-    rewrite F1a, F1b, F1c, F2a, F2b, F2c, F3a, F3b, F3c, F4a, F4b, F4c. reflexivity.
+    rewrite ?Ev, ?F1a, F1b, F1c, ?F2a, F2b, F2c, ?F3a, F3b, F3c, ?F4a, F4b, F4c. reflexivity.
   - unfold rule_version_ok. cbn [set_nets r_ipver r_src_nets r_not_src_nets r_dst_nets r_not_dst_nets].
     rewrite Ev, F1b, F2b, F3b, F4b. reflexivity.
 Qed.
